@@ -6,7 +6,8 @@ From Coq Require Import String.
 From Coq Require Import NArith ZArith List.
 From CB Require Import Contract.CcCodec Contract.CcTypes.
 From CB Require Import Contract.SchemaJson Contract.SchemaJsonProofs Contract.SchemaJsonConverse Contract.SchemaJsonContract
-  Contract.CcSchemaCodec Contract.CcSchemaCodecProofs Contract.CcSchemaCodecFuel.
+  Contract.CcSchemaCodec Contract.CcSchemaCodecProofs Contract.CcSchemaCodecFuel
+  Contract.SchemaJsonLeb Contract.CcSchemaNew Contract.Base64 Contract.Base64Proofs Contract.SchemaJsonContractMore.
 Import ListNotations.
 Local Open Scope N_scope.
 
@@ -221,3 +222,225 @@ Example name_text_forms_strip_once :
   /\ from_json stub_leaves (TReceiveName SL8) (JObj [(s_contract, JStr (str_of "init_a")); (s_func, JStr (str_of "b..c_d"))]) = Some (13 :: str_of "init_a.b..c_d").
 Proof. vm_compute. repeat split; reflexivity. Qed.
 Print Assumptions name_text_forms_strip_once.
+
+(** * LEB128 schema types with a byte-count constraint: the accepted forms as an iff, for every constraint and value.
+    [uleb_fixed k n] / [sleb_fixed k z] = the encoding with exactly [S k] bytes; [ufits k n] = n < 2^(7(k+1));
+    [sfits k z] = -2^(7(k+1)-1) <= z < 2^(7(k+1)-1). *)
+Theorem leb128_unsigned_accepts_iff : forall (L : leaves) c bs j rest, bytes_ok bs = true ->
+  (to_json L (TULeb128 c) bs = Some (j, rest) <->
+   exists k n, N.of_nat (S k) <= c /\ ufits k n /\ bs = uleb_fixed k n ++ rest /\ j = JStr (show_N n)).
+Proof. exact uleb_normal_form. Qed.
+Print Assumptions leb128_unsigned_accepts_iff.
+
+Theorem leb128_signed_accepts_iff : forall (L : leaves) c bs j rest, bytes_ok bs = true ->
+  (to_json L (TILeb128 c) bs = Some (j, rest) <->
+   exists k z, N.of_nat (S k) <= c /\ sfits k z /\ bs = sleb_fixed k z ++ rest /\ j = JStr (show_Z z)).
+Proof. exact sleb_normal_form. Qed.
+Print Assumptions leb128_signed_accepts_iff.
+
+(** what [serial_biguint] / [serial_bigint] write: exactly the values that fit [c] bytes, in the shortest fixed form *)
+Theorem leb128_unsigned_writes_shortest : forall c n,
+  ((exists g, uleb_enc c n = Some g) <-> (exists k, ufits k n /\ N.of_nat (S k) <= c)) /\
+  (forall g, uleb_enc c n = Some g ->
+     exists k, g = uleb_fixed k n /\ ufits k n /\ N.of_nat (S k) <= c /\ (forall k', ufits k' n -> (k <= k')%nat)).
+Proof. exact (fun c n => conj (uleb_enc_iff c n) (uleb_enc_canonical c n)). Qed.
+Print Assumptions leb128_unsigned_writes_shortest.
+
+Theorem leb128_signed_writes_shortest : forall c z,
+  ((exists g, sleb_enc c z = Some g) <-> (exists k, sfits k z /\ N.of_nat (S k) <= c)) /\
+  (forall g, sleb_enc c z = Some g ->
+     exists k, g = sleb_fixed k z /\ sfits k z /\ N.of_nat (S k) <= c /\ (forall k', sfits k' z -> (k <= k')%nat)).
+Proof. exact (fun c z => conj (sleb_enc_iff c z) (sleb_enc_canonical c z)). Qed.
+Print Assumptions leb128_signed_writes_shortest.
+
+(** the padded forms, syntactically: a longer form is the shorter one with the continuation bit set on its last
+    byte, then [j] groups 0x80 (0xff for a negative value) and a final 0x00 (0x7f) *)
+Theorem leb128_unsigned_padded_forms : forall k j n, ufits k n ->
+  uleb_fixed (k + S j) n =
+  removelast (uleb_fixed k n) ++ [last (uleb_fixed k n) 0 + 128] ++ repeat 128 j ++ [0].
+Proof. exact uleb_fixed_pad. Qed.
+Print Assumptions leb128_unsigned_padded_forms.
+
+Theorem leb128_signed_padded_forms : forall k j z, sfits k z ->
+  sleb_fixed (k + S j) z =
+  removelast (sleb_fixed k z) ++ [last (sleb_fixed k z) 0 + 128] ++ repeat (sign_cont z) j ++ [sign_last z].
+Proof. exact sleb_fixed_pad. Qed.
+Print Assumptions leb128_signed_padded_forms.
+
+(** bytes -> JSON -> bytes = [uleb_strip] / [sleb_strip] of the bytes read (a function of the bytes alone that
+    drops the redundant trailing groups): the result prints as the same JSON, is never longer, and is the input
+    itself when it has the same length.  This is the normal form theorem for the two LEB128 types. *)
+Theorem leb128_unsigned_normal_form : forall (L : leaves) c bs j rest, bytes_ok bs = true ->
+  to_json L (TULeb128 c) bs = Some (j, rest) ->
+  exists pre, bs = pre ++ rest /\ from_json L (TULeb128 c) j = Some (uleb_strip pre) /\
+              to_json L (TULeb128 c) (uleb_strip pre ++ rest) = Some (j, rest) /\
+              (length (uleb_strip pre) <= length pre)%nat /\
+              (length (uleb_strip pre) = length pre -> uleb_strip pre = pre).
+Proof. exact uleb_to_from_json. Qed.
+Print Assumptions leb128_unsigned_normal_form.
+
+Theorem leb128_signed_normal_form : forall (L : leaves) c bs j rest, bytes_ok bs = true ->
+  to_json L (TILeb128 c) bs = Some (j, rest) ->
+  exists pre, bs = pre ++ rest /\ from_json L (TILeb128 c) j = Some (sleb_strip pre) /\
+              to_json L (TILeb128 c) (sleb_strip pre ++ rest) = Some (j, rest) /\
+              (length (sleb_strip pre) <= length pre)%nat /\
+              (length (sleb_strip pre) = length pre -> sleb_strip pre = pre).
+Proof. exact sleb_to_from_json. Qed.
+Print Assumptions leb128_signed_normal_form.
+
+(** every fixed form within the constraint: printed, converted back to the shortest form of that value, which no
+    other form undercuts, and stripping is idempotent *)
+Theorem leb128_unsigned_all_forms : forall (L : leaves) c k n rest, N.of_nat (S k) <= c -> ufits k n ->
+  let canon := uleb_strip (uleb_fixed k n) in
+  to_json L (TULeb128 c) (uleb_fixed k n ++ rest) = Some (JStr (show_N n), rest) /\
+  from_json L (TULeb128 c) (JStr (show_N n)) = Some canon /\
+  to_json L (TULeb128 c) (canon ++ rest) = Some (JStr (show_N n), rest) /\
+  (forall k', ufits k' n -> (length canon <= S k')%nat) /\
+  (length canon = S k -> canon = uleb_fixed k n) /\
+  uleb_strip canon = canon.
+Proof. exact uleb_from_to_json. Qed.
+Print Assumptions leb128_unsigned_all_forms.
+
+Theorem leb128_signed_all_forms : forall (L : leaves) c k z rest, N.of_nat (S k) <= c -> sfits k z ->
+  let canon := sleb_strip (sleb_fixed k z) in
+  to_json L (TILeb128 c) (sleb_fixed k z ++ rest) = Some (JStr (show_Z z), rest) /\
+  from_json L (TILeb128 c) (JStr (show_Z z)) = Some canon /\
+  to_json L (TILeb128 c) (canon ++ rest) = Some (JStr (show_Z z), rest) /\
+  (forall k', sfits k' z -> (length canon <= S k')%nat) /\
+  (length canon = S k -> canon = sleb_fixed k z) /\
+  sleb_strip canon = canon.
+Proof. exact sleb_from_to_json. Qed.
+Print Assumptions leb128_signed_all_forms.
+
+(** boundary values: 2^7-1 / 2^7 under constraints 1 and 5; 2^35-1 fits 5 bytes, 2^35 does not; -64 / -65;
+    a padded form of 127 with 5 bytes, of -1 with 10 bytes; nothing fits constraint 0 *)
+Example leb128_nonvacuous :
+  ufits 0 127 /\ ~ ufits 0 128 /\ ufits 4 (2 ^ 35 - 1) /\ ~ ufits 4 (2 ^ 35) /\ sfits 0 (-64)%Z /\ ~ sfits 0 (-65)%Z /\
+  uleb_enc 1 127 = Some [127] /\ uleb_enc 1 128 = None /\ uleb_enc 5 128 = Some [128; 1] /\
+  uleb_enc 5 (2 ^ 35 - 1) = Some [255; 255; 255; 255; 127] /\ uleb_enc 5 (2 ^ 35) = None /\
+  uleb_enc 37 (2 ^ 259 - 1) = Some (repeat 255 36 ++ [127]) /\ uleb_enc 37 (2 ^ 259) = None /\ uleb_enc 0 0 = None /\
+  sleb_enc 1 (-64)%Z = Some [64] /\ sleb_enc 1 (-65)%Z = None /\ sleb_enc 10 (-65)%Z = Some [191; 127] /\
+  sleb_enc 10 (2 ^ 69 - 1)%Z = Some (repeat 255 9 ++ [63]) /\ sleb_enc 10 (2 ^ 69)%Z = None /\
+  sleb_enc 10 (- 2 ^ 69)%Z = Some (repeat 128 9 ++ [64]) /\ sleb_enc 10 (- 2 ^ 69 - 1)%Z = None /\
+  uleb_fixed 4 127 = [255; 128; 128; 128; 0] /\ uleb_strip [255; 128; 128; 128; 0] = [127] /\
+  sleb_fixed 9 (-1)%Z = repeat 255 9 ++ [127] /\ sleb_strip (repeat 255 9 ++ [127]) = [127] /\
+  to_json stub_leaves (TULeb128 5) [255; 128; 128; 128; 0; 9] = Some (JStr [49; 50; 55], [9]) /\
+  to_json stub_leaves (TULeb128 4) [255; 128; 128; 128; 0; 9] = None /\
+  to_json stub_leaves (TILeb128 2) [191; 127] = Some (JStr [45; 54; 53], []) /\
+  sleb_strip [128; 127] = [128; 127] /\ sleb_strip [255; 0] = [255; 0] /\ sleb_strip [191; 255; 127] = [191; 127].
+Proof. vm_compute. repeat split; try reflexivity; intros H; try discriminate H; destruct H as [H _]; exact (H eq_refl). Qed.
+Print Assumptions leb128_nonvacuous.
+
+(** * [VersionedModuleSchema::new] as a dispatch with its error kinds *)
+Theorem schema_new_dispatch_total : forall bs v,
+  ((exists m, schema_new_r bs v = NewOk m) \/ schema_new_r bs v = NewErr NewParseError \/
+   schema_new_r bs v = NewErr NewMissingVersion \/ schema_new_r bs v = NewErr NewInvalidVersion) /\
+  (forall m, schema_new_r bs v = NewOk m <-> schema_new bs v = Some m).
+Proof. exact (fun bs v => conj (schema_new_r_total bs v) (schema_new_r_ok bs v)). Qed.
+Print Assumptions schema_new_dispatch_total.
+
+Theorem schema_new_error_kinds : forall bs v,
+  (schema_new_r bs v = NewErr NewMissingVersion <-> dec_versioned_top bs = None /\ v = None) /\
+  (schema_new_r bs v = NewErr NewInvalidVersion <-> dec_versioned_top bs = None /\ exists x, v = Some x /\ 3 < x) /\
+  (schema_new_r bs v = NewErr NewParseError <->
+     dec_versioned_top bs = None /\ exists x, v = Some x /\ x <= 3 /\ dec_module_top x bs = None).
+Proof. exact schema_new_r_errors. Qed.
+Print Assumptions schema_new_error_kinds.
+
+Theorem schema_new_versioned_any_hint : forall m rest v, cwf_module m = true ->
+  schema_new_r (enc_versioned m ++ rest) v = NewOk m.
+Proof. exact schema_new_r_versioned. Qed.
+Print Assumptions schema_new_versioned_any_hint.
+
+(** [no_prefix_clash m]: the contract count's low 16 bits are not all ones (the unversioned bytes do not start ff ff) *)
+Theorem schema_new_unversioned : forall m rest, cwf_module m = true -> no_prefix_clash m ->
+  schema_new_r (enc_module_body m ++ rest) (Some (module_version m)) = NewOk m /\
+  schema_new_r (enc_module_body m ++ rest) None = NewErr NewMissingVersion /\
+  (forall v, 3 < v -> schema_new_r (enc_module_body m ++ rest) (Some v) = NewErr NewInvalidVersion).
+Proof. exact schema_new_r_unversioned. Qed.
+Print Assumptions schema_new_unversioned.
+
+Theorem schema_new_forms_consistent : forall m1 m2 hint r1 r2,
+  cwf_module m1 = true -> cwf_module m2 = true -> no_prefix_clash m1 ->
+  (schema_new_r (enc_module_body m1 ++ r1) (Some (module_version m1)) = schema_new_r (enc_versioned m2 ++ r2) hint
+   <-> m1 = m2).
+Proof. exact schema_new_forms_agree. Qed.
+Print Assumptions schema_new_forms_consistent.
+
+Theorem schema_unversioned_needs_the_version :
+  (enc_module_body (MV0 []) = enc_module_body (MV1 []) /\ MV0 [] <> MV1 [] /\
+   schema_new_r (enc_module_body (MV0 [])) (Some 1) = NewOk (MV1 [])) /\
+  (forall m1 m2, cwf_module m1 = true -> cwf_module m2 = true ->
+     module_version m1 = module_version m2 -> enc_module_body m1 = enc_module_body m2 -> m1 = m2).
+Proof. exact (conj unversioned_bytes_ambiguous unversioned_injective). Qed.
+Print Assumptions schema_unversioned_needs_the_version.
+
+Example schema_new_nonvacuous :
+  let m := MV3 [([97], {| c3_init := Some {| f2_param := Some (TULeb128 5); f2_ret := None; f2_err := None |};
+                          c3_receive := []; c3_event := Some TU8 |})] in
+  cwf_module m = true /\ no_prefix_clash m /\
+  schema_new_r (enc_module_body m) (Some 3) = NewOk m /\ schema_new_r (enc_versioned m) None = NewOk m /\
+  schema_new_r (enc_module_body m) None = NewErr NewMissingVersion /\
+  schema_new_r (enc_module_body m) (Some 4) = NewErr NewInvalidVersion /\
+  schema_new_r (enc_module_body m) (Some 0) = NewErr NewParseError.
+Proof. vm_compute. repeat split; try reflexivity. intros H; discriminate H. Qed.
+Print Assumptions schema_new_nonvacuous.
+
+(** * base64 ([STANDARD_NO_PAD]: standard alphabet, no padding, trailing bits must be zero) *)
+Theorem base64_roundtrip : forall bs, b64_bytes_ok bs = true -> b64_decode (b64_encode bs) = Some bs.
+Proof. exact b64_decode_encode. Qed.
+Print Assumptions base64_roundtrip.
+
+(** the decoder accepts exactly what the encoder writes: in particular any '=', a single left-over symbol and
+    non-zero trailing bits are rejected *)
+Theorem base64_decoder_is_canonical : forall s bs,
+  b64_decode s = Some bs <-> (b64_bytes_ok bs = true /\ s = b64_encode bs).
+Proof. exact b64_decode_iff. Qed.
+Print Assumptions base64_decoder_is_canonical.
+
+Theorem base64_trailing_bits : forall s bs, b64_decode_lax s = Some bs ->
+  (b64_decode s = Some bs <-> s = b64_encode bs).
+Proof. exact b64_noncanonical_rejected. Qed.
+Print Assumptions base64_trailing_bits.
+
+(** a schema in base64: decode, then the versioned decoder ([from_base64_str]); the second hypothesis says the
+    model's encoding consists of bytes (names are lists of [N] in the model) *)
+Theorem schema_base64_roundtrip : forall m, cwf_module m = true -> b64_bytes_ok (enc_versioned m) = true ->
+  exists bytes, b64_decode (b64_encode (enc_versioned m)) = Some bytes /\ dec_versioned_top bytes = Some (m, []).
+Proof. exact schema_b64_roundtrip. Qed.
+Print Assumptions schema_base64_roundtrip.
+
+Example base64_nonvacuous :
+  b64_decode [81; 81] = Some [65] /\ b64_decode [81; 82] = None /\ b64_decode_lax [81; 82] = Some [65] /\
+  b64_decode [81; 81; 61; 61] = None /\ b64_decode [81] = None /\
+  b64_encode [255; 255; 3] = [47; 47; 56; 68] /\ b64_decode (b64_encode [255; 255; 3; 0]) = Some [255; 255; 3; 0].
+Proof. vm_compute. repeat split; reflexivity. Qed.
+Print Assumptions base64_nonvacuous.
+
+(** * The contract-side Rust types of the harness: 21 of the 26 are instances of the fragment (corollary of
+    [bytes_are_contract_encoding]); Timestamp / Duration / AccountAddress relative to the abstract text codecs. *)
+Theorem contract_side_rust_types : forall (L : leaves) c, In c rust_types_in_fragment ->
+  forall j bs, json_wf j = true -> from_json L (ty_of c) j = Some bs ->
+  exists v, denote c j = Some v /\ wf (codec_of c) v /\ bs = enc (codec_of c) v.
+Proof. exact rust_types_contract_encoding. Qed.
+Print Assumptions contract_side_rust_types.
+
+Theorem contract_side_leaf_types : forall (L : leaves) j bs,
+  (from_json L TTimestamp j = Some bs ->
+     exists s m, j = JStr s /\ ts_parse L s = Some m /\ wf (c_uint 8) m /\ bs = enc (c_uint 8) m) /\
+  (from_json L TDuration j = Some bs ->
+     exists s m, j = JStr s /\ dur_parse L s = Some m /\ wf (c_uint 8) m /\ bs = enc (c_uint 8) m) /\
+  (from_json L TAccountAddress j = Some bs ->
+     exists s, j = JStr s /\ acc_parse L s = Some bs /\ length bs = 32%nat).
+Proof.
+  exact (fun L j bs => conj (timestamp_contract_encoding L j bs)
+                         (conj (duration_contract_encoding L j bs) (account_contract_encoding L j bs))).
+Qed.
+Print Assumptions contract_side_leaf_types.
+
+Example contract_side_rust_types_nonvacuous :
+  length rust_types_in_fragment = 21%nat /\
+  from_json stub_leaves (ty_of (CMap SL32 (CUint W8) (CSint W32))) (JArr [JArr [JNum 7%Z; JNum (-2)%Z]])
+  = Some [1; 0; 0; 0; 7; 254; 255; 255; 255].
+Proof. vm_compute. split; reflexivity. Qed.
+Print Assumptions contract_side_rust_types_nonvacuous.
